@@ -31,9 +31,12 @@ func Matrix(emit func(*Program), stride int) {
 		if stride > 1 && n%stride != 0 && kind != "shift" && kind != "shift-big" && kind != "matrix1" {
 			return
 		}
-		for _, fl := range FlagSets {
+		for fi, fl := range FlagSets {
 			if hazard && fl&FGenesis != 0 {
 				continue
+			}
+			if stride > 100 && fi%2 == 1 && (kind == "shift" || kind == "matrix1") {
+				continue // quick tier: the always-included families run under four of the eight flag sets
 			}
 			emit((&Program{Unlock: []byte{}, Lock: append([]byte{}, lock...), Flags: fl, Kind: kind}).Fix())
 		}
